@@ -116,7 +116,7 @@ CHECKS.update({
 
 NOT_APPLICABLE = {
     "C07": "bdd_complexity is Vec push/retain/sort/dedup under symbolic conditions: a single symbolic function at n=2 does not finish in 900 s under Kani/CBMC (n<=1 is vacuous); no bound at which the property says anything is reachable by the solver",
-    "C14": "every Sop operation goes through from_cubes ((0..32).filter over a symbolic mask) or conditional Vec::push and ends in simplify (retain/sort/dedup): '|' and '&' on 1x1 cubes at n=2 exceed 900 s under Kani/CBMC; cube-level facts it relies on are decided in C12",
+    "C14": "every Sop operation goes through from_cubes ((0..32).filter over a symbolic mask) or conditional Vec::push and ends in simplify (retain/sort/dedup): '|' on two one-cube Sops built from constructors (concrete shapes, symbolic variable indices) runs CBMC out of memory in array-theory post-processing (245 s, then OOM), '&' / '!' are heavier; cube-level facts simplify relies on (implies, canonical zero, &) are decided in C12",
     "C16": "Display goes through core::fmt (Arguments, pad_integral, dyn Write) plus String/Vec<String>/join: Cube Display at n=2 exceeds 600 s even with a fixed-array sink; every output byte depends on every input bit, so the solver has no leverage over enumeration",
     "C18": "the deciding computation is HiGHS (C++ behind FFI, floating-point branch-and-bound) driven through good_lp; Kani cannot link or model it and the optim-mip dependencies are not buildable offline here",
 }
